@@ -166,6 +166,15 @@ impl MigScenario {
         Ok(())
     }
 
+    /// The proxies receive the same metadata again under a newer epoch (what happens when anything else
+    /// in the cluster changes while a migration runs: another migration commits, another chunk fails
+    /// over, an operator bumps the epoch): PUT /epoch/<n> on the broker, then one sync round.
+    pub async fn refresh(&self) -> Result<(), String> {
+        let e = self.sys.broker.get_epoch().await.map_err(|e| e.to_string())?;
+        self.sys.broker.force_bump_all_epoch(e + 3).await.map_err(|e| e.to_string())?;
+        self.sync().await
+    }
+
     /// Issues the resize (scale-out: add nodes, sync, start migration; scale-in: start migration)
     /// and delivers the migrating metadata. Handshakes stay behind their gates.
     pub async fn start_resize(&self, to_nodes: usize) -> Result<(), String> {
